@@ -108,4 +108,16 @@ Patched(oldm, newm, live, adopted, k3) ==
         pol |-> Val3(om.pol, newm.pol, live.pol, "none"), own |-> "me"]
   ELSE [f1 |-> Val2(om.f1, newm.f1, live.f1), f2 |-> Val2(om.f2, newm.f2, live.f2),
         pol |-> Val2(om.pol, newm.pol, live.pol), own |-> "me"]
+
+\* kube.Client.update computes the patch from the live object as createPatch READ it (snap) and the API server
+\* applies that patch to the object as it is THEN (live): the two differ when somebody else wrote in between.
+\* With snap = live this is Patched.
+Put3(o, n, s, l, none) == IF Chg3(o, n, s, none) THEN (IF n # none THEN n ELSE none) ELSE l
+
+PatchedOn(oldm, newm, snap, live, adopted, k3) ==
+  LET om == IF adopted THEN newm ELSE oldm IN
+  IF Typed(newm.kind) \/ k3
+  THEN [f1 |-> Put3(om.f1, newm.f1, snap.f1, live.f1, "-"), f2 |-> Put3(om.f2, newm.f2, snap.f2, live.f2, "-"),
+        pol |-> Put3(om.pol, newm.pol, snap.pol, live.pol, "none"), own |-> IF snap.own = "me" THEN live.own ELSE "me"]
+  ELSE Patched(oldm, newm, live, adopted, k3)
 =============================================================================
